@@ -851,18 +851,20 @@ func runC11(c *core.Ctx) {
 			if !isTotalLHS(w) {
 				continue
 			}
-			acc := c11Addend(w, func(e ast.Expr) bool { return c11IsPath(calc, e, V, c11FTotal) }) != nil
-			if _, isInc := w.Stmt.(*ast.IncDecStmt); isInc {
-				acc = true
+			// total += x, total = total + x, or the sum formed in a local from the total (or a snapshot of
+			// it) and then stored: one accumulation, whichever way it is spelled (c11_acc.go)
+			acc := c11AccOf(calc, w, func(e ast.Expr) bool { return c11IsPath(calc, e, V, c11FTotal) }, writes)
+			if _, isInc := w.Stmt.(*ast.IncDecStmt); isInc && acc == nil {
+				acc = &c11Acc{W: w}
 			}
-			if !acc {
-				if w.Tok == token.ASSIGN {
+			if acc == nil {
+				if w.Tok != token.DEFINE {
 					c.Undecided("total is only accumulated", "T7", w.Stmt.Pos(), "the total is overwritten by a form other than total += w")
 				}
 				continue
 			}
 			nAcc++
-			c11CheckWrap(c, calc, V, w, writes)
+			c11CheckWrap(c, calc, V, acc, writes)
 		}
 		c.ExpectAtLeast("accumulations into totalWeight", nAcc, 1)
 	})
@@ -876,10 +878,21 @@ func runC11(c *core.Ctx) {
 			c.Fail("no effect hidden in a function literal", "T6 (closures)", pos, "a function literal of calcCaches that is not looked through writes the cached weights or the total: the sum need not be the sum of the cached weights")
 		}
 		var acc, wst []assignment
+		var accs []*c11Acc
 		isTot := func(e ast.Expr) bool { return c11IsPath(calc, e, V, c11FTotal) }
+		var totWrites []assignment
 		for _, a := range assignments(calc) {
-			if isTot(a.LHS) && c11Addend(a, isTot) != nil {
-				acc = append(acc, a)
+			if isTot(a.LHS) || varOf(calc, a.LHS) == V {
+				totWrites = append(totWrites, a)
+			}
+		}
+		for _, a := range assignments(calc) {
+			if isTot(a.LHS) {
+				// the accumulation may be spelled total += x or as a sum formed in a local and then stored
+				if ac := c11AccOf(calc, a, isTot, totWrites); ac != nil {
+					acc = append(acc, a)
+					accs = append(accs, ac)
+				}
 			}
 			if ix, ok := ast.Unparen(a.LHS).(*ast.IndexExpr); ok && c11IsPath(calc, ix.X, V, c11FWeights) {
 				wst = append(wst, a)
@@ -887,6 +900,7 @@ func runC11(c *core.Ctx) {
 		}
 		c.Need(len(acc) == 1 && len(wst) == 1, "one total += and one weights[i] = in calcCaches")
 		a, w := acc[0], wst[0]
+		accAddend := accs[0].Addend
 		// the loop may be written as a range or as a counted loop: what matters is that its index takes
 		// each value once (bound by the loop header only, stepping by one)
 		it := c11IterationAt(calc, a.Stmt.Pos())
@@ -895,7 +909,7 @@ func runC11(c *core.Ctx) {
 			// cached weights themselves (for _, x := range cache.weights { total += x }). The total is then
 			// the sum of weights[j] over all j whatever the first loop stored, provided nothing is stored
 			// into the weights once the pass has begun.
-			elem := it.isElem(c11Addend(a, isTot))
+			elem := it.isElem(accAddend)
 			every := it.everyIteration([]core.Point{a.Pt})
 			noLate := true
 			for _, st := range c11Stores(calc) {
@@ -922,7 +936,7 @@ func runC11(c *core.Ctx) {
 		c.Need(it != nil && it.Stmt == enclosingLoop(calc, w.Stmt.Pos()), "both statements are in the same loop whose index is advanced by the loop header only")
 		ix := ast.Unparen(w.LHS).(*ast.IndexExpr)
 		keyOK := it.isIndex(ix.Index)
-		addend := c11Addend(a, isTot)
+		addend := accAddend
 		same := w.RHS != nil && w.Tok == token.ASSIGN &&
 			(c11SameExpr(calc, w.RHS, addend) || c11SameExpr(calc, resolveLocal(calc, w.RHS), resolveLocal(calc, addend)))
 		if !same && w.RHS != nil && w.Tok == token.ASSIGN {
@@ -1564,77 +1578,6 @@ func c11LitFields(f *core.FuncInfo, lit *ast.CompositeLit) map[string]ast.Expr {
 		out[f.P.FieldName(v)] = kv.Value
 	}
 	return out
-}
-
-// c11CheckWrap: the accumulation w (total += x) is followed, before the next iteration or any return, by the
-// edge "snapshot <= total", where snapshot was copied from the total right before w.
-func c11CheckWrap(c *core.Ctx, calc *core.FuncInfo, V *types.Var, w assignment, writes []assignment) {
-	const key = "running sum wrap check"
-	// candidate snapshot variables: locals with a single definition "b := total"
-	var best string
-	for _, a := range assignments(calc) {
-		b := varOf(calc, a.LHS)
-		if b == nil || b == V || a.RHS == nil || !c11IsPath(calc, a.RHS, V, c11FTotal) {
-			continue
-		}
-		if len(assignsToVar(calc, b)) != 1 {
-			best = "the snapshot variable " + b.Name() + " is assigned more than once"
-			continue
-		}
-		// snapshot precedes the accumulation in the same iteration, with no other write of the total in between
-		if ok, _ := precedesLocally(calc, []core.Point{a.Pt}, w.Pt); !ok {
-			best = "the snapshot " + b.Name() + " is not taken before every accumulation"
-			continue
-		}
-		clean := true
-		for _, o := range writes {
-			if o.Pt == w.Pt {
-				continue
-			}
-			if _, found := (core.PathQuery{F: calc, From: a.Pt, FromAfter: true, Target: core.PointSet(o.Pt), Avoid: core.PointSet(w.Pt)}).Find(); found {
-				// o lies between the snapshot and the accumulation only if the accumulation is still reachable from o without a new snapshot
-				if _, f2 := (core.PathQuery{F: calc, From: o.Pt, FromAfter: true, Target: core.PointSet(w.Pt), Avoid: core.PointSet(a.Pt)}).Find(); f2 {
-					clean = false
-				}
-			}
-		}
-		if !clean {
-			best = "the total is written between the snapshot " + b.Name() + " and the accumulation"
-			continue
-		}
-		namer := func(e ast.Expr) string {
-			if c11IsPath(calc, e, V, c11FTotal) {
-				return "total"
-			}
-			if varOf(calc, e) == b {
-				return "before"
-			}
-			return ""
-		}
-		want := core.ParseLinCmp("before - total <= 0")
-		guard := calc.GuardEdges(func(ft core.Fact) bool {
-			lc, ok := core.NormLinCmp(calc.Info(), ft, namer)
-			return ok && lc.Equal(want)
-		})
-		wit, toExit := core.PathQuery{F: calc, From: w.Pt, FromAfter: true, AvoidEdge: guard, TargetExit: true}.Find()
-		wit2, again := core.PathQuery{F: calc, From: w.Pt, FromAfter: true, AvoidEdge: guard, Target: core.PointSet(w.Pt)}.Find()
-		// and the total is not written between the accumulation and the check
-		switch {
-		case toExit:
-			best = "a wrapped running sum can reach a return without the check total >= snapshot: path " + calc.DescribePath(wit)
-			continue
-		case again:
-			best = "a wrapped running sum can enter the next accumulation without the check total >= snapshot: path " + calc.DescribePath(wit2)
-			continue
-		}
-		c.Pass(key, "T4 GuardedBy (after)", "after total += w every path to the next iteration or to a return takes the edge "+b.Name()+" <= total ("+b.Name()+" = total before the addition): an unsigned wrap is detected exactly and panics")
-		return
-	}
-	if best == "" {
-		c.Undecided(key, "T4 GuardedBy (after)", w.Stmt.Pos(), "no snapshot of the total before the accumulation was found (wrap-check idiom not recognised): weights summing to 2^32 or more would wrap to a small total that passes the bound check")
-		return
-	}
-	c.Fail(key, "T4 GuardedBy (after)", w.Stmt.Pos(), best+": weights summing to 2^32 or more can wrap to a small total that passes the bound check, and the quorum is then computed from a wrong total")
 }
 
 // c11QuorumShape decides whether e is ((T*2)/3)+1 (operands of + and * in either order).
